@@ -81,6 +81,21 @@ Definition default_tok (s : str) : res (tok * str) :=
       end
   end.
 
+(* where the stream stands after amount_t::parse inside {..}: parse_symbol (commodity.cc:349-352) and
+   annotation_t::parse rewind over the white space they skipped when they find nothing, so after a quantity
+   without commodity the stream stands right behind the last digit *)
+Definition brace_rest (s : str) (ap : amount_parts) : str :=
+  match ap_sym ap with
+  | [] =>
+      let s1 := skip_ws s in
+      let s2 := match s1 with 45 :: t => skip_ws t | _ => s1 end in
+      match s2 with
+      | c :: _ => if is_digit c then snd (read_quantity s2) else ap_rest ap
+      | [] => ap_rest ap
+      end
+  | _ => ap_rest ap
+  end.
+
 (* one character c was read; c2 following it makes the two-character token t2 *)
 Definition two (c2 : Z) (t2 t1 : tok) (r : str) : res (option (tok * str)) :=
   match r with
@@ -99,10 +114,11 @@ Definition next_tok (opctx : bool) (s0 : str) : res (option (tok * str)) :=
       else if c =? 91 then Err EOther                           (* [date]: not modelled *)
       else if (c =? 39) || (c =? 34) then Err EOther            (* strings: not modelled *)
       else if c =? 123 then                                     (* {amount} *)
+        do ap <- split_amount r;
         do pa <- parse_amount_text false r;
-        match pa_rest pa with
+        match brace_rest r ap with
         | 125 :: r' => Ok (Some (lit_tok true pa, r'))
-        | _ => Err EOther
+        | _ => Err EOther                (* `{8 }`: no white space is skipped before the `}` *)
         end
       else if c =? 33 then                                      (* ! != !~ *)
         match r with
